@@ -8,6 +8,7 @@ TRUSTED_BASE = [
     "Print Assumptions of every theorem in coq/Properties/C18.v: closed under the global context",
     "hand-written model coq/Model/Channels.v (HttpDemux::select, prepare_speedtest with u32::from_str semantics, the download and upload countdowns); the reverse-proxy relay itself is the DuplexPipe of C02",
     "translator tools/gen_tables.py -> Generated/ChannelFacts.v (select precedence and each test, speedtest constants and handlers' shape, ping answer, reverse-proxy destination = settings.server_address reached through connect_to_peer which has no policy check, no handler mentions the authenticator)",
+    "hand-written model coq/Model/Http1Download.v of the response side of Http1Codec (one-place channel, message in flight kept in the codec, partial writes, dropped listen futures, orderly close), pinned by fact HTTP1_MESSAGE_IN_FLIGHT_KEPT and run against the real codec over a scripted transport (engine c18_dl: the model's and the codec's offers, byte counts after every step and final bytes must be equal)",
     "extraction + driver.ml, cross-checked against vm_compute; harness door verif::session on all four channels (HTTP/1.1 bytes / real h2 client), origin canary on loopback",
 ]
 ASSUMPTIONS = [
@@ -21,6 +22,7 @@ RULE = ("channels: ping host, speedtest host, reverse-proxy host, tunnel host wi
         "downloads that take longer than the handler timeout (slow reader, 100-200 ms timeout); reverse proxy with loopback origin x private connections allowed/refused, path mask on the tunnel host with/without Upgrade; slow-reading client; "
         "reverse proxy against a scripted origin (HTTP/1.1 through the door and the TLS listener, HTTP/3 through the QUIC listener): requests with a body of 5 .. 300000 bytes that the origin "
         "reads entirely, half or not at all before it answers; response heads of 60 .. 8000 bytes and 1 .. 100 fields written in one piece or cut at chosen and random offsets; "
+        "HTTP/1.1 response side on its own: scripts of 3 .. 16 steps (offers of 1 .. 300 bytes, runs of the listen loop with room for 0 .. 400 bytes, dropped listen futures, orderly end); "
         "non-trivial = every case; distinct = distinct request")
 
 
